@@ -187,6 +187,29 @@ fn sliding_log_step_l3_n2() { sliding_log_step(3, 2) }
 #[kani::stub(std::time::Instant::now, env::now_stub)]
 fn sliding_log_step_l3_n3() { sliding_log_step(3, 3) }
 
+/// Windows so long that `oldest + window` is not representable as an Instant
+/// ("never refresh": up to Duration::MAX): a full log still admits nobody.
+#[kani::proof]
+#[kani::unwind(6)]
+#[kani::stub(std::time::Instant::now, env::now_stub)]
+fn sliding_log_huge_window() {
+    init_clock();
+    let secs: u64 = kani::any();
+    let nanos: u32 = kani::any();
+    kani::assume(secs >= 1_000_000_000 && nanos < 1_000_000_000);
+    let window = Duration::new(secs, nanos);
+    let timeout = any_millis(300_000);
+    let mut s = SlidingLogState::new(1, window, timeout);
+    let t = any_millis(500_000);
+    kani::assume(t <= env::now());
+    s.request_log.push_back(env::instant_at(t));
+    let r = s.try_acquire();
+    assert!(r != Ok(Duration::ZERO) && s.request_log.len() == 1, "[C02.log_grant_needs_room] a grant needs fewer than limit unexpired grants, however long the window");
+    assert!(r == Err(timeout), "[C15.log_reject_only_beyond_timeout] the oldest grant expires far beyond the timeout: the caller is rejected");
+    kani::cover!(secs == u64::MAX, "Duration::MAX-sized window covered");
+    std::mem::forget(s);
+}
+
 // ------------------------------------------------------------------ sliding counter
 /// Whole-second instants and durations for the sliding counter: its f64 ratio
 /// arithmetic over nanosecond-precise symbolic durations did not finish in 15
